@@ -203,6 +203,9 @@ func (c *ValidatorCache) GetBySlot(ctx context.Context, slot uint64) (ActiveVali
 type ProposerDuties struct {
 	sync.RWMutex
 
+	// invalidations counts InvalidateCache calls; a response fetched before an invalidation is not stored after it.
+	invalidations uint64
+
 	requestedIdxs map[eth2p0.Epoch][]eth2p0.ValidatorIndex
 	duties        map[eth2p0.Epoch][]eth2v1.ProposerDuty
 	metadata      map[eth2p0.Epoch]map[string]any
@@ -210,6 +213,7 @@ type ProposerDuties struct {
 
 // ProposerDutiesForEpoch is a map of proposer duties for specific epoch.
 type ProposerDutiesForEpoch struct {
+	invalidations uint64
 	requestedIdxs []eth2p0.ValidatorIndex
 	duties        []eth2v1.ProposerDuty
 	metadata      map[string]any
@@ -219,6 +223,9 @@ type ProposerDutiesForEpoch struct {
 type AttesterDuties struct {
 	sync.RWMutex
 
+	// invalidations counts InvalidateCache calls; a response fetched before an invalidation is not stored after it.
+	invalidations uint64
+
 	requestedIdxs map[eth2p0.Epoch][]eth2p0.ValidatorIndex
 	duties        map[eth2p0.Epoch][]eth2v1.AttesterDuty
 	metadata      map[eth2p0.Epoch]map[string]any
@@ -226,6 +233,7 @@ type AttesterDuties struct {
 
 // AttesterDutiesForEpoch is a map of attester duties for specific epoch.
 type AttesterDutiesForEpoch struct {
+	invalidations uint64
 	requestedIdxs []eth2p0.ValidatorIndex
 	duties        []eth2v1.AttesterDuty
 	metadata      map[string]any
@@ -235,6 +243,9 @@ type AttesterDutiesForEpoch struct {
 type SyncDuties struct {
 	sync.RWMutex
 
+	// invalidations counts InvalidateCache calls; a response fetched before an invalidation is not stored after it.
+	invalidations uint64
+
 	requestedIdxs map[eth2p0.Epoch][]eth2p0.ValidatorIndex
 	duties        map[eth2p0.Epoch][]eth2v1.SyncCommitteeDuty
 	metadata      map[eth2p0.Epoch]map[string]any
@@ -242,6 +253,7 @@ type SyncDuties struct {
 
 // SyncDutiesForEpoch is a map of sync committee duties for specific epoch.
 type SyncDutiesForEpoch struct {
+	invalidations uint64
 	requestedIdxs []eth2p0.ValidatorIndex
 	duties        []eth2v1.SyncCommitteeDuty
 	metadata      map[string]any
@@ -443,7 +455,7 @@ func (c *DutiesCache) ProposerDutiesCache(ctx context.Context, epoch eth2p0.Epoc
 		dutiesDeref = append(dutiesDeref, d)
 	}
 
-	_, ok = c.storeOrAmendProposerDuties(epoch, ProposerDutiesForEpoch{duties: dutiesDeref, metadata: maps.Clone(eth2Resp.Metadata), requestedIdxs: requestVidxs})
+	_, ok = c.storeOrAmendProposerDuties(epoch, ProposerDutiesForEpoch{invalidations: dutiesForEpoch.invalidations, duties: dutiesDeref, metadata: maps.Clone(eth2Resp.Metadata), requestedIdxs: requestVidxs})
 	if !ok {
 		log.Debug(ctx, "Failed to cache proposer duties - another routine already cached duties for this epoch, skipping", z.U64("epoch", uint64(epoch)))
 	}
@@ -538,7 +550,7 @@ func (c *DutiesCache) AttesterDutiesCache(ctx context.Context, epoch eth2p0.Epoc
 		dutiesDeref = append(dutiesDeref, d)
 	}
 
-	_, ok = c.storeOrAmendAttesterDuties(epoch, AttesterDutiesForEpoch{duties: dutiesDeref, metadata: maps.Clone(eth2Resp.Metadata), requestedIdxs: requestVidxs})
+	_, ok = c.storeOrAmendAttesterDuties(epoch, AttesterDutiesForEpoch{invalidations: dutiesForEpoch.invalidations, duties: dutiesDeref, metadata: maps.Clone(eth2Resp.Metadata), requestedIdxs: requestVidxs})
 	if !ok {
 		log.Debug(ctx, "Failed to cache attester duties - another routine already cached duties for this epoch, skipping", z.U64("epoch", uint64(epoch)))
 	}
@@ -637,7 +649,7 @@ func (c *DutiesCache) SyncCommDutiesCache(ctx context.Context, epoch eth2p0.Epoc
 		dutiesDeref = append(dutiesDeref, d)
 	}
 
-	_, ok = c.storeOrAmendSyncDuties(epoch, SyncDutiesForEpoch{duties: dutiesDeref, metadata: maps.Clone(eth2Resp.Metadata), requestedIdxs: requestVidxs})
+	_, ok = c.storeOrAmendSyncDuties(epoch, SyncDutiesForEpoch{invalidations: dutiesForEpoch.invalidations, duties: dutiesDeref, metadata: maps.Clone(eth2Resp.Metadata), requestedIdxs: requestVidxs})
 	if !ok {
 		log.Debug(ctx, "Failed to cache sync duties - another routine already cached duties for this epoch, skipping", z.U64("epoch", uint64(epoch)))
 	}
@@ -654,20 +666,20 @@ func (c *DutiesCache) fetchProposerDuties(epoch eth2p0.Epoch) (ProposerDutiesFor
 
 	duties, ok := c.proposerDuties.duties[epoch]
 	if !ok {
-		return ProposerDutiesForEpoch{}, false
+		return ProposerDutiesForEpoch{invalidations: c.proposerDuties.invalidations}, false
 	}
 
 	metadata, ok := c.proposerDuties.metadata[epoch]
 	if !ok {
-		return ProposerDutiesForEpoch{}, false
+		return ProposerDutiesForEpoch{invalidations: c.proposerDuties.invalidations}, false
 	}
 
 	requestedIdxs, ok := c.proposerDuties.requestedIdxs[epoch]
 	if !ok {
-		return ProposerDutiesForEpoch{}, false
+		return ProposerDutiesForEpoch{invalidations: c.proposerDuties.invalidations}, false
 	}
 
-	return ProposerDutiesForEpoch{duties: duties, metadata: metadata, requestedIdxs: requestedIdxs}, true
+	return ProposerDutiesForEpoch{invalidations: c.proposerDuties.invalidations, duties: duties, metadata: metadata, requestedIdxs: requestedIdxs}, true
 }
 
 // fetchAttesterDuties returns the cached attester duties and true if they are available.
@@ -677,20 +689,20 @@ func (c *DutiesCache) fetchAttesterDuties(epoch eth2p0.Epoch) (AttesterDutiesFor
 
 	duties, ok := c.attesterDuties.duties[epoch]
 	if !ok {
-		return AttesterDutiesForEpoch{}, false
+		return AttesterDutiesForEpoch{invalidations: c.attesterDuties.invalidations}, false
 	}
 
 	metadata, ok := c.attesterDuties.metadata[epoch]
 	if !ok {
-		return AttesterDutiesForEpoch{}, false
+		return AttesterDutiesForEpoch{invalidations: c.attesterDuties.invalidations}, false
 	}
 
 	requestedIdxs, ok := c.attesterDuties.requestedIdxs[epoch]
 	if !ok {
-		return AttesterDutiesForEpoch{}, false
+		return AttesterDutiesForEpoch{invalidations: c.attesterDuties.invalidations}, false
 	}
 
-	return AttesterDutiesForEpoch{duties: duties, metadata: metadata, requestedIdxs: requestedIdxs}, true
+	return AttesterDutiesForEpoch{invalidations: c.attesterDuties.invalidations, duties: duties, metadata: metadata, requestedIdxs: requestedIdxs}, true
 }
 
 // fetchSyncDuties returns the cached sync duties and true if they are available.
@@ -700,20 +712,20 @@ func (c *DutiesCache) fetchSyncDuties(epoch eth2p0.Epoch) (SyncDutiesForEpoch, b
 
 	duties, ok := c.syncDuties.duties[epoch]
 	if !ok {
-		return SyncDutiesForEpoch{}, false
+		return SyncDutiesForEpoch{invalidations: c.syncDuties.invalidations}, false
 	}
 
 	metadata, ok := c.syncDuties.metadata[epoch]
 	if !ok {
-		return SyncDutiesForEpoch{}, false
+		return SyncDutiesForEpoch{invalidations: c.syncDuties.invalidations}, false
 	}
 
 	requestedIdxs, ok := c.syncDuties.requestedIdxs[epoch]
 	if !ok {
-		return SyncDutiesForEpoch{}, false
+		return SyncDutiesForEpoch{invalidations: c.syncDuties.invalidations}, false
 	}
 
-	return SyncDutiesForEpoch{duties: duties, metadata: metadata, requestedIdxs: requestedIdxs}, true
+	return SyncDutiesForEpoch{invalidations: c.syncDuties.invalidations, duties: duties, metadata: metadata, requestedIdxs: requestedIdxs}, true
 }
 
 // storeOrAmendProposerDuties stores proposer duties in the cache for the given epoch if they don't exist and false if they already exists.
@@ -722,6 +734,11 @@ func (c *DutiesCache) fetchSyncDuties(epoch eth2p0.Epoch) (SyncDutiesForEpoch, b
 func (c *DutiesCache) storeOrAmendProposerDuties(epoch eth2p0.Epoch, dutiesForEpoch ProposerDutiesForEpoch) ([]eth2v1.ProposerDuty, bool) {
 	c.proposerDuties.Lock()
 	defer c.proposerDuties.Unlock()
+
+	if dutiesForEpoch.invalidations != c.proposerDuties.invalidations {
+		// The duties were fetched before a reorg invalidated the cache, they may be stale.
+		return nil, false
+	}
 
 	alreadySavedDuties, ok := c.proposerDuties.duties[epoch]
 	if !ok {
@@ -771,6 +788,11 @@ func (c *DutiesCache) storeOrAmendAttesterDuties(epoch eth2p0.Epoch, dutiesForEp
 	c.attesterDuties.Lock()
 	defer c.attesterDuties.Unlock()
 
+	if dutiesForEpoch.invalidations != c.attesterDuties.invalidations {
+		// The duties were fetched before a reorg invalidated the cache, they may be stale.
+		return nil, false
+	}
+
 	alreadySavedDuties, ok := c.attesterDuties.duties[epoch]
 	if !ok {
 		c.attesterDuties.duties[epoch] = dutiesForEpoch.duties
@@ -819,6 +841,11 @@ func (c *DutiesCache) storeOrAmendAttesterDuties(epoch eth2p0.Epoch, dutiesForEp
 func (c *DutiesCache) storeOrAmendSyncDuties(epoch eth2p0.Epoch, dutiesForEpoch SyncDutiesForEpoch) ([]eth2v1.SyncCommitteeDuty, bool) {
 	c.syncDuties.Lock()
 	defer c.syncDuties.Unlock()
+
+	if dutiesForEpoch.invalidations != c.syncDuties.invalidations {
+		// The duties were fetched before a reorg invalidated the cache, they may be stale.
+		return nil, false
+	}
 
 	alreadySavedDuties, ok := c.syncDuties.duties[epoch]
 	if !ok {
@@ -968,6 +995,8 @@ func (c *DutiesCache) trimAfterProposerDuties(epoch eth2p0.Epoch) bool {
 	c.proposerDuties.Lock()
 	defer c.proposerDuties.Unlock()
 
+	c.proposerDuties.invalidations++
+
 	ok := false
 
 	for k := range c.proposerDuties.duties {
@@ -1002,6 +1031,8 @@ func (c *DutiesCache) trimAfterAttesterDuties(epoch eth2p0.Epoch) bool {
 	c.attesterDuties.Lock()
 	defer c.attesterDuties.Unlock()
 
+	c.attesterDuties.invalidations++
+
 	ok := false
 
 	for k := range c.attesterDuties.duties {
@@ -1035,6 +1066,8 @@ func (c *DutiesCache) trimAfterAttesterDuties(epoch eth2p0.Epoch) bool {
 func (c *DutiesCache) trimAfterSyncDuties(epoch eth2p0.Epoch) bool {
 	c.syncDuties.Lock()
 	defer c.syncDuties.Unlock()
+
+	c.syncDuties.invalidations++
 
 	ok := false
 
